@@ -1471,7 +1471,7 @@ package gkvlite
 //@   ensures stopped: !result ==> vis.stop
 
 //@ func (*Collection).VisitItemsAscendEx
-//@   props C06 C19 C07 C15 C05 C04 C09 C18 C11
+//@   props C06 C19 C07 C15 C05 C04 C09 C18 C11 C13
 //@   from: C06 statement, over the ghost visit log (see visitNodes)
 //@   requires [C05,C18] nolocks: locks == emptyLocks()
 //@   requires t != nil && t.store != nil && t.rootLock != nil && t.compare != nil && visitor != nil
@@ -1483,7 +1483,7 @@ package gkvlite
 //@   after (*Store).visitNodes.0 asserts [C05,C04,C18] version-stays-pinned-during-the-visit: rnl == old(t.root) && rnl.refs == old(t.root.refs) + 1
 //@   ensures [C07] E1: io.fails >= old(io.fails) && (io.fails > old(io.fails) ==> result != nil)
 //@   ensures [C06] log-only-grows: vis.n >= old(vis.n) && (forall idx {vis.key[idx]} {vis.item[idx]} {vis.hasval[idx]} {old(vis.key)[idx]} {old(vis.item)[idx]} {old(vis.hasval)[idx]} :: idx < old(vis.n) ==> vis.key[idx] == old(vis.key)[idx] && vis.item[idx] == old(vis.item)[idx] && vis.hasval[idx] == old(vis.hasval)[idx])
-//@   ensures [C06,C11] delivered-items-are-the-collections: forall idx {vis.key[idx]} {vis.item[idx]} {vis.depth[idx]} {vis.hasval[idx]} :: old(vis.n) <= idx && idx < vis.n ==> mem(vis.key[idx], old(tvs)[old(t.root.root)]) && vis.item[idx] == itemAt(vis.key[idx], old(tvs)[old(t.root.root)]) && vis.key[idx] >= ord(target) && vis.depth[idx] == depthIn(vis.key[idx], old(tvs)[old(t.root.root)]) && (withValue ==> vis.hasval[idx])
+//@   ensures [C06,C11,C13] delivered-items-are-the-collections: forall idx {vis.key[idx]} {vis.item[idx]} {vis.depth[idx]} {vis.hasval[idx]} :: old(vis.n) <= idx && idx < vis.n ==> mem(vis.key[idx], old(tvs)[old(t.root.root)]) && vis.item[idx] == itemAt(vis.key[idx], old(tvs)[old(t.root.root)]) && vis.key[idx] >= ord(target) && vis.depth[idx] == depthIn(vis.key[idx], old(tvs)[old(t.root.root)]) && (withValue ==> vis.hasval[idx])
 //@   ensures [C06,C11] strictly-ordered: forall idx, jdx {vis.key[idx], vis.key[jdx]} :: old(vis.n) <= idx && idx < jdx && jdx < vis.n ==> vis.key[idx] < vis.key[jdx]
 //@   ensures [C06,C11] complete-unless-stopped: result == nil && !vis.stop ==> forall k {mem(k, old(tvs)[old(t.root.root)])} :: mem(k, old(tvs)[old(t.root.root)]) && k >= ord(target) ==> exists idx {vis.key[idx]} :: old(vis.n) <= idx && idx < vis.n && vis.key[idx] == k
 //@   ensures [C19] key-only-reads-no-value: !withValue ==> io.valbytes == old(io.valbytes)
@@ -1492,7 +1492,7 @@ package gkvlite
 //@   ensures [C15] in-visit-eviction-releases-what-it-drops: orphans == old(orphans)
 
 //@ func (*Collection).VisitItemsDescendEx
-//@   props C06 C19 C07 C15 C05 C04 C09 C18
+//@   props C06 C19 C07 C15 C05 C04 C09 C18 C13
 //@   from: C06 statement, over the ghost visit log (see visitNodes)
 //@   requires [C05,C18] nolocks: locks == emptyLocks()
 //@   requires t != nil && t.store != nil && t.rootLock != nil && t.compare != nil && visitor != nil
@@ -1504,7 +1504,7 @@ package gkvlite
 //@   after (*Store).visitNodes.0 asserts [C05,C04,C18] version-stays-pinned-during-the-visit: rnl == old(t.root) && rnl.refs == old(t.root.refs) + 1
 //@   ensures [C07] E1: io.fails >= old(io.fails) && (io.fails > old(io.fails) ==> result != nil)
 //@   ensures [C06] log-only-grows: vis.n >= old(vis.n) && (forall idx {vis.key[idx]} {vis.item[idx]} {vis.hasval[idx]} {old(vis.key)[idx]} {old(vis.item)[idx]} {old(vis.hasval)[idx]} :: idx < old(vis.n) ==> vis.key[idx] == old(vis.key)[idx] && vis.item[idx] == old(vis.item)[idx] && vis.hasval[idx] == old(vis.hasval)[idx])
-//@   ensures [C06] delivered-items-are-the-collections: forall idx {vis.key[idx]} {vis.item[idx]} {vis.depth[idx]} {vis.hasval[idx]} :: old(vis.n) <= idx && idx < vis.n ==> mem(vis.key[idx], old(tvs)[old(t.root.root)]) && vis.item[idx] == itemAt(vis.key[idx], old(tvs)[old(t.root.root)]) && vis.key[idx] < ord(target) && vis.depth[idx] == depthIn(vis.key[idx], old(tvs)[old(t.root.root)]) && (withValue ==> vis.hasval[idx])
+//@   ensures [C06,C13] delivered-items-are-the-collections: forall idx {vis.key[idx]} {vis.item[idx]} {vis.depth[idx]} {vis.hasval[idx]} :: old(vis.n) <= idx && idx < vis.n ==> mem(vis.key[idx], old(tvs)[old(t.root.root)]) && vis.item[idx] == itemAt(vis.key[idx], old(tvs)[old(t.root.root)]) && vis.key[idx] < ord(target) && vis.depth[idx] == depthIn(vis.key[idx], old(tvs)[old(t.root.root)]) && (withValue ==> vis.hasval[idx])
 //@   ensures [C06] strictly-ordered: forall idx, jdx {vis.key[idx], vis.key[jdx]} :: old(vis.n) <= idx && idx < jdx && jdx < vis.n ==> vis.key[idx] > vis.key[jdx]
 //@   ensures [C06] complete-unless-stopped: result == nil && !vis.stop ==> forall k {mem(k, old(tvs)[old(t.root.root)])} :: mem(k, old(tvs)[old(t.root.root)]) && k < ord(target) ==> exists idx {vis.key[idx]} :: old(vis.n) <= idx && idx < vis.n && vis.key[idx] == k
 //@   ensures [C19] key-only-reads-no-value: !withValue ==> io.valbytes == old(io.valbytes)
